@@ -586,7 +586,7 @@ func ewExec(r *core.Run, c ewCase) (*core.Fail, string) {
 			kfMinMaxIncr = true // DEFECT model of F-C07-minmax-incr-overwrites: the increment tensor is overwritten with the result
 			continue
 		}
-		if !okv && c.kind == "cmp" && mode == "unsafe" && c.form == "ST" && n == 1 && ref.Same(got[i], bv[i]) {
+		if !okv && c.kind == "cmp" && mode == "unsafe" && (c.form == "ST" || c.form == "StT") && n == 1 && ref.Same(got[i], bv[i]) {
 			kfCmpLen1 = true // DEFECT model of F-C11-cmp-unsafe-scalar-left-len1: the tensor is left unchanged
 			continue
 		}
